@@ -3,15 +3,10 @@ package main
 // corpus is the committed regression corpus: every witness ever found by this
 // check (or by the scratch probes that preceded it), plus the plainly illegal
 // inputs that must be refused. It is replayed first in every tier, and the
-// random phases also mutate its members.
-//
-// Expect: what the statement demands for the case. "silent" = nothing outside
-// the working directory changes (whether or not Push fails); "refused" = in
-// addition the LAST push must return an error.
-type corpusMeta struct {
-	Expect string // silent | refused
-	Fix    string // commit in /repo that repaired it ("" = never failed)
-}
+// random phases also mutate its members. Fix names the /repo commit that
+// repaired the case (the check fires on it when that commit is reverted; 24ab11d
+// alone no longer shows on cases 1-2 because 66fc93d unlinks before writing —
+// the enumerated "multi" phase shows it through a later named blob).
 
 var pkgPlant = []Entry{dir("pkg/d"), sym("pkg/d/s", ".."), sym("pkg/d/f", "s/../../victim"), sym("pkg/d/o", "s/../..")}
 
@@ -20,46 +15,49 @@ func blob(title string) Push              { return Push{Kind: "blob", Title: tit
 
 var corpus = []Case{
 	// 0: finding 1 (fixed by 66fc93d)
-	{Note: "regular entry written through a planted symlink (final component)", Prepop: "empty", Pushes: []Push{
+	{Note: "regular entry written through a planted symlink (final component)", Fix: "66fc93d", Prepop: "empty", Pushes: []Push{
 		arch("pkg", dir("pkg/d"), sym("pkg/d/s", ".."), sym("pkg/d/f", "s/../../victim"), reg("pkg/d/f"))}},
 	// 1: finding 2 (fixed by 24ab11d)
-	{Note: "relative hard-link source resolved against the process directory, then overwritten", Prepop: "empty", Pushes: []Push{
+	{Note: "relative hard-link source resolved against the process directory, then overwritten", Fix: "24ab11d", Prepop: "empty", Pushes: []Push{
 		arch("pkg", link("pkg/x", "secret"), reg("pkg/x"))}},
 	// 2
-	{Note: "hard link to a same-named file of the process directory", Prepop: "d", Pushes: []Push{
+	{Note: "hard link to a same-named file of the process directory", Fix: "24ab11d", Prepop: "d", Pushes: []Push{
 		arch("pkg", link("pkg/d/victim", "victim"), reg("pkg/d/victim"))}},
 	// 3: (a) fixed by 4ea4ea0
-	{Note: "named blob through a symlink planted by an earlier archive (final component)", Prepop: "empty", Pushes: []Push{
+	{Note: "named blob through a symlink planted by an earlier archive (final component)", Fix: "4ea4ea0", Prepop: "empty", Pushes: []Push{
 		arch("pkg", pkgPlant...), blob("pkg/d/f")}},
 	// 4: (b) fixed by a89c09d
-	{Note: "absolute hard-link source with .. after a planted symlink, then named blob over the hard link", Prepop: "empty", Pushes: []Push{
+	{Note: "absolute hard-link source with .. after a planted symlink, then named blob over the hard link", Fix: "a89c09d", Prepop: "empty", Pushes: []Push{
 		arch("pkg", dir("pkg/d"), sym("pkg/d/s", ".."), link("pkg/h", "$WD/pkg/d/s/../../victim")), blob("pkg/h")}},
 	// 5: (c) fixed by 4ea4ea0
-	{Note: "named blob below a planted directory symlink: creates directories and a file outside", Prepop: "empty", Pushes: []Push{
+	{Note: "named blob below a planted directory symlink: creates directories and a file outside", Fix: "4ea4ea0", Prepop: "empty", Pushes: []Push{
 		arch("pkg", pkgPlant...), blob("pkg/d/o/newdir/new")}},
 	// 6: (d) fixed by 4ea4ea0
-	{Note: "second archive whose title passes through a planted directory symlink", Prepop: "empty", Pushes: []Push{
+	{Note: "second archive whose title passes through a planted directory symlink", Fix: "4ea4ea0", Prepop: "empty", Pushes: []Push{
 		arch("pkg", pkgPlant...), arch("pkg/d/o/outdir", reg("pkg/d/o/outdir/x"))}},
 	// 7: fixed by 72bf07b
-	{Note: "absolute title validated cleaned but used raw: .. after a planted inside-pointing symlink", Prepop: "empty", Pushes: []Push{
+	{Note: "absolute title validated cleaned but used raw: .. after a planted inside-pointing symlink", Fix: "72bf07b", Prepop: "empty", Pushes: []Push{
 		arch("pkg", dir("pkg/d"), sym("pkg/d/s", "..")), blob("$WD/pkg/d/s/../../victim")}},
 	// 8: fixed by 72bf07b
-	{Note: "absolute title with .. after a pre-existing inside-pointing symlink", Prepop: "ds", Pushes: []Push{
+	{Note: "absolute title with .. after a pre-existing inside-pointing symlink", Fix: "72bf07b", Prepop: "ds", Pushes: []Push{
 		blob("$WD/pkg/d/s/../../victim")}},
 	// 9: fixed by 72bf07b
-	{Note: "absolute archive title with .. after a pre-existing inside-pointing symlink (MkdirAll outside)", Prepop: "ds", Pushes: []Push{
+	{Note: "absolute archive title with .. after a pre-existing inside-pointing symlink (MkdirAll outside)", Fix: "72bf07b", Prepop: "ds", Pushes: []Push{
 		arch("$WD/pkg/d/s/../../newdir", reg("$WD/pkg/d/s/../../newdir/x"))}},
 	// 10
-	{Note: "archive replaces its own (empty) target directory by a symlink through a pre-existing link", Prepop: "sub", Pushes: []Push{
+	{Note: "archive replaces its own (empty) target directory by a symlink through a pre-existing link", Fix: "c70bfe4", Prepop: "sub", Pushes: []Push{
 		arch("sub/outdir", sym("sub/outdir", "up/../outdir"), reg("sub/outdir/x"))}},
-	// 11
+	// 11 (inserted later: same trick through a link planted by an earlier archive, no pre-population)
+	{Note: "second archive replaces its own target directory by a symlink through a planted link", Fix: "c70bfe4", Prepop: "empty", Pushes: []Push{
+		arch("pkg", pkgPlant...), arch("pkg/d/outdir", sym("pkg/d/outdir", "o/../outdir"), reg("pkg/d/outdir/x"))}},
+	// 12
 	{Note: "regular entry below a planted directory symlink", Prepop: "d", Pushes: []Push{
 		arch("pkg", sym("pkg/d/s", ".."), sym("pkg/d/o", "s/../.."), reg("pkg/d/o/new"), dir("pkg/d/o/outdir/nd"))}},
 	// 12
-	{Note: "manifest push restores a titled layer through a planted symlink", Prepop: "empty", Pushes: []Push{
+	{Note: "manifest push restores a titled layer through a planted symlink", Fix: "4ea4ea0", Prepop: "empty", Pushes: []Push{
 		arch("pkg", pkgPlant...), {Kind: "restore", Title: "pkg/d/f"}}},
 	// 13
-	{Note: "named blob through a dangling planted symlink (creates a file outside)", Prepop: "empty", Pushes: []Push{
+	{Note: "named blob through a dangling planted symlink (creates a file outside)", Fix: "4ea4ea0", Prepop: "empty", Pushes: []Push{
 		arch("pkg", dir("pkg/d"), sym("pkg/d/s", ".."), sym("pkg/d/n", "s/../../new")), blob("pkg/d/n")}},
 	// 14
 	{Note: "hard link to a planted symlink, then regular entry over it", Prepop: "empty", Pushes: []Push{
@@ -84,11 +82,9 @@ var corpus = []Case{
 	{Note: "absolute title outside via the working directory", Prepop: "empty", Pushes: []Push{blob("$WD/../victim")}},
 	{Note: "archive title outside", Prepop: "empty", Pushes: []Push{arch("../outdir", reg("../outdir/x"))}},
 	{Note: "manifest layer title outside", Prepop: "empty", Pushes: []Push{{Kind: "restore", Title: "../victim"}}},
-}
-
-var corpusExpect = map[int]corpusMeta{
-	0: {"silent", "66fc93d"}, 1: {"silent", "24ab11d"}, 2: {"silent", "24ab11d"},
-	3: {"silent", "4ea4ea0"}, 4: {"silent", "a89c09d"}, 5: {"silent", "4ea4ea0"}, 6: {"silent", "4ea4ea0"},
-	7: {"silent", "72bf07b"}, 8: {"silent", "72bf07b"}, 9: {"silent", "72bf07b"},
-	12: {"silent", "4ea4ea0"}, 13: {"silent", "4ea4ea0"},
+	// later additions
+	{Note: "hard link to a file of the process directory, then a named blob over the hard link", Fix: "24ab11d", Prepop: "empty", Pushes: []Push{
+		arch("pkg", link("pkg/x", "secret")), blob("pkg/x")}},
+	{Note: "hard link to a file of the process directory, then a manifest restoring a layer over it", Fix: "24ab11d", Prepop: "empty", Pushes: []Push{
+		arch("pkg", link("pkg/x", "./secret")), {Kind: "restore", Title: "pkg/x"}}},
 }
